@@ -189,7 +189,7 @@ Definition lex_step (carry : list ascii) (s : list ascii) : step_result :=
             | Some (v, r'') => emit LxUnion v r''
             | None => Done [errtok] Closed
             end
-          else emit k (carry ++ ["%"]) r'
+          else emit k (carry ++ "%" :: firstn (length r - length r') r) r'      (* the word: "%", skipped blanks, keyword *)
         | None => Cont [] (carry ++ ["%"]) r            (* no keyword: the "%" stays in the current word *)
         end in
       match r with
